@@ -334,19 +334,35 @@ func encryptSide(run *vk.Run, w *world.World, tier string) {
 		}
 		seen[k] = true
 		n++
-		cw := &coregen.CountingWriter{}
-		takeDerived()
-		_, err := age.Encrypt(cw, coregen.Recipients(w, c.Rs)...)
-		run.Eval(1)
-		rp := map[string]interface{}{"check": "C10.encrypt", "rs": c.Rs}
-		if len(c.Rs) > 1 {
-			if err == nil {
-				run.Violation("C10:passphrase-recipient-not-alone:rs="+k, fmt.Sprintf("Encrypt accepted [%s]", k), rp)
-			} else if cw.Bytes != 0 {
-				run.Violation("C10:bytes-written-on-refusal:rs="+k, fmt.Sprintf("%d bytes written before refusing [%s]", cw.Bytes, k), rp)
+		// twice: with the library's recipient values, and with every passphrase recipient held inside a caller's own
+		// struct (the rule is about what the recipient does, not about its dynamic type)
+		for _, owned := range []bool{false, true} {
+			rcs := coregen.Recipients(w, c.Rs)
+			if owned {
+				for j, rc := range rcs {
+					if sr, ok := rc.(*age.ScryptRecipient); ok {
+						rcs[j] = ownedPassphrase{sr, "caller"}
+					}
+				}
 			}
-		} else if err != nil {
-			run.Drift("a lone passphrase recipient was refused: %v", err)
+			cw := &coregen.CountingWriter{}
+			takeDerived()
+			_, err := age.Encrypt(cw, rcs...)
+			run.Eval(1)
+			rp := map[string]interface{}{"check": "C10.encrypt", "rs": c.Rs, "owned": owned}
+			kk := k
+			if owned {
+				kk += "/embedded"
+			}
+			if len(c.Rs) > 1 {
+				if err == nil {
+					run.Violation("C10:passphrase-recipient-not-alone:rs="+kk, fmt.Sprintf("Encrypt accepted [%s]", kk), rp)
+				} else if cw.Bytes != 0 {
+					run.Violation("C10:bytes-written-on-refusal:rs="+kk, fmt.Sprintf("%d bytes written before refusing [%s]", cw.Bytes, kk), rp)
+				}
+			} else if err != nil {
+				run.Drift("a lone passphrase recipient was refused: %v", err)
+			}
 		}
 		run.Distinct("enc:" + k)
 	}
@@ -423,4 +439,10 @@ func cliGate(run *vk.Run, t *c05.Terms, x1 *age.X25519Identity) {
 		}
 		run.Distinct(sig)
 	}
+}
+
+// ownedPassphrase is a passphrase recipient inside a caller's struct: all its methods are the library's.
+type ownedPassphrase struct {
+	*age.ScryptRecipient
+	owner string
 }
